@@ -1105,6 +1105,29 @@ class Engine:
             return self.while_(s, st)
         if isinstance(s, ast.Try):
             return self.try_(s, st)
+        if isinstance(s, ast.With):
+            # `with EXPR as NAME: body` - the context expression is evaluated (hooks / forking as for any call), its value is bound to
+            # NAME (the managers met in this code base - os.scandir - return themselves), the body runs, exceptions propagate;
+            # __exit__ is a no-op for the model (closing a directory iterator has no observable effect on the contracts)
+            cur = [(st, Outcome('normal'))]
+            for item in s.items:
+                nxt = []
+                for s1, oc in cur:
+                    if oc.kind != 'normal':
+                        nxt.append((s1, oc))
+                        continue
+                    for s2, v in self.eval_forking(item.context_expr, s1):
+                        if isinstance(v, Outcome):
+                            nxt.append((s2, v))
+                            continue
+                        if item.optional_vars is not None:
+                            self.assign(item.optional_vars, v, s2, s)
+                        nxt.append((s2, Outcome('normal')))
+                cur = nxt
+            out = []
+            for s1, oc in cur:
+                out.extend(self.block(s.body, s1) if oc.kind == 'normal' else [(s1, oc)])
+            return out
         if isinstance(s, ast.FunctionDef):
             st.env[s.name] = V('fn', None, node=s)
             return N
